@@ -160,12 +160,21 @@ copy_blocks(const int    src_fd,
 {
   ssize_t n_read = 0;
   while ((n_read = read(src_fd, block, block_size)) > 0) {
-    if (write(dst_fd, block, (size_t)n_read) != n_read) {
-      return zix_errno_status(errno);
+    // Write the whole block, continuing after any short writes
+    ssize_t n_written = 0;
+    while (n_written < n_read) {
+      const ssize_t n = write(dst_fd,
+                              (const char*)block + n_written,
+                              (size_t)(n_read - n_written));
+      if (n <= 0) {
+        return n ? zix_errno_status(errno) : ZIX_STATUS_ERROR;
+      }
+
+      n_written += n;
     }
   }
 
-  return ZIX_STATUS_SUCCESS;
+  return n_read ? zix_errno_status(errno) : ZIX_STATUS_SUCCESS;
 }
 
 ZixStatus
